@@ -32,3 +32,8 @@ pub(crate) mod timer;
 #[cfg(test)]
 #[allow(unused)]
 pub(crate) use timer::Timer;
+
+// Verification hook (add-only): compiled only under `cargo kani` or `--cfg heathcliff_verif`.
+#[cfg(any(kani, heathcliff_verif))]
+#[path = "/verif/incrate/util_mod_v.rs"]
+pub(crate) mod verif_v;
